@@ -15,6 +15,10 @@ definition, loop and call statement:
   VX_<fn>_<n>        after the closing brace of that loop
   VB_<fn>_<callee>_<k>  before the statement that contains the k-th call of
                      identifier <callee> inside <fn>
+  VLK_B(e)           around every operand of the top-level && / || chain of every if / while / for
+                     condition (branch observation point; default: (e))
+  VLK_I(e)           around the index of every subscript whose index is not a compile-time
+                     constant (address observation point; default: (e))
 
 No token of the original text is changed, removed or reordered; original line
 structure is kept (tokens are inserted on the same line).  With all macros
@@ -214,6 +218,52 @@ def instrument_text(text, fname):
             inserts.append((lb + b + 1, 0, " VT_%s " % tag))
             inserts.append((lb + e + 1, 0, " VX_%s " % tag))
             points += ["VP_" + tag, "VL_" + tag, "VT_" + tag, "VX_" + tag]
+        # C08 observation points: branch conditions and non-constant subscripts
+        for mo in re.finditer(r"\b(if|while|for)\b", body):
+            p = skip_ws(body, mo.end())
+            if p >= len(body) or body[p] != "(":
+                continue
+            q = match_forward(body, p, "(", ")")
+            lo, hi = p + 1, q
+            if mo.group(1) == "for":
+                semis = [k for k in range(lo, hi) if body[k] == ";" and pd[k] == pd[p]]
+                if len(semis) != 2:
+                    raise Break("%s: for header without two ';' in %s" % (fname, name))
+                lo, hi = semis[0] + 1, semis[1]
+            # split on top-level && and ||
+            cuts = [lo]
+            k = lo
+            while k < hi - 1:
+                if pd[k] == pd[p] and body[k:k + 2] in ("&&", "||"):
+                    cuts.append(k)
+                    cuts.append(k + 2)
+                    k += 2
+                else:
+                    k += 1
+            cuts.append(hi)
+            orig = text[lb:rb + 1]   # trim on the ORIGINAL text: literals and comments are blanked in the mask
+            for a, b in zip(cuts[0::2], cuts[1::2]):
+                while a < b and orig[a].isspace():
+                    a += 1
+                while b > a and orig[b - 1].isspace():
+                    b -= 1
+                if a < b:
+                    inserts.append((lb + a, 3, "VLK_B("))
+                    inserts.append((lb + b, -1, ")"))
+        k = 0
+        while k < len(body):
+            if body[k] == "[":
+                j = match_forward(body, k, "[", "]")
+                prev = k - 1
+                while prev >= 0 and body[prev].isspace():
+                    prev -= 1
+                content = body[k + 1:j]
+                idents = [w for w in re.findall(r"[A-Za-z_][A-Za-z_0-9]*", content) if w != "sizeof"]
+                if prev >= 0 and (body[prev].isalnum() or body[prev] in "_)]") and \
+                        any(re.search(r"[a-z]", w) for w in idents) and content.strip():
+                    inserts.append((lb + k + 1, 3, "VLK_I("))
+                    inserts.append((lb + j, -1, ")"))
+            k += 1
         # call statements
         counts = {}
         for mo in re.finditer(r"\b([A-Za-z_][A-Za-z_0-9]*)\s*\(", body):
@@ -268,6 +318,7 @@ def main():
     seen = set()
     with open(os.path.join(outdir, "verif_defaults.h"), "w") as fh:
         fh.write("/* generated: every instrumentation point defaults to empty */\n")
+        fh.write("#ifndef VLK_B\n#define VLK_B(e) (e)\n#endif\n#ifndef VLK_I\n#define VLK_I(e) (e)\n#endif\n")
         for f, pts in sorted(allpoints.items()):
             for p in pts:
                 if p in seen:
